@@ -6,7 +6,7 @@
 //!   a<d>:<s>         archive   A<d>:<s> unarchive  (needs the archive folder)
 //!   f<d>:<f>         create folder                 r<d>:<f>:<n>  rename folder
 //!   p<d>:<f>         set folder description        g<d>:<f>:<bits> set folder flags
-//!   k<d>:<f>         delete folder
+//!   k<d>:<f>         delete folder                 i<d>:<f>      export folder f and import the export as a copy (same secret ids)
 //!   z<d>:<f>         compact folder                w<d>:<f>      change folder password
 //!   o<d>             sign out and sign in again    s<d>          sync with the server
 //!   h<d>:<f>:<src>   forced overwrite: device d replaces folder f by device src's whole log
@@ -52,6 +52,9 @@ pub struct World {
     pub counter: u64,
     pub step: usize,
     pub keycheck: Option<String>,
+    /// the account password each device currently signs in with (op W changes it)
+    pub passwords: HashMap<usize, secrecy::SecretString>,
+    pub cipher_flip: bool,
 }
 
 const CLOCK_BASE: i64 = 1_700_000_000_000_000_000;
@@ -107,7 +110,7 @@ impl World {
         let mut w = World {
             base, cdb, sdb, server, devs, account_id,
             slots: HashMap::new(), fslots: HashMap::new(), fnames: HashMap::new(),
-            tokens: HashMap::new(), counter: 0, step: 0, keycheck: None,
+            tokens: HashMap::new(), counter: 0, step: 0, keycheck: None, passwords: HashMap::new(), cipher_flip: false,
         };
         let default = w.devs[0].bridge.account.lock().await.default_folder().await.unwrap();
         w.fslots.insert("0".to_string(), *default.id());
@@ -453,6 +456,30 @@ impl World {
                     Err(e) => res!(Err::<(), _>(e)),
                 }
             }
+            "i" => {
+                // export folder <f> and import the export next to the original (overwrite = false): a new folder
+                // holding the SAME secret ids
+                let Some(fid) = self.fslots.get(parts[1]).copied() else { return "nofolder".into() };
+                let mut account = acct.lock().await;
+                if account.folder(&fid).await.is_err() {
+                    return "unknown".into();
+                }
+                self.counter += 1;
+                let path = self.base.join(format!("export-{}.vault", self.counter));
+                let pw: secrecy::SecretString = secrecy::SecretString::new(format!("export-passphrase-{}", self.counter).into());
+                if let Err(e) = account.export_folder(&path, &fid, pw.clone().into(), false).await {
+                    return res!(Err::<(), _>(e));
+                }
+                match account.import_folder(&path, pw.into(), false).await {
+                    Ok(fc) => {
+                        let id = *fc.folder.id();
+                        let n = format!("c{}", self.counter);
+                        self.fnames.insert(id, n);
+                        "ok".into()
+                    }
+                    Err(e) => res!(Err::<(), _>(e)),
+                }
+            }
             "r" | "p" | "g" | "k" | "z" | "w" => {
                 let Some(fid) = self.fslots.get(parts[1]).copied() else { return "nofolder".into() };
                 let mut account = acct.lock().await;
@@ -553,13 +580,55 @@ impl World {
                 let mut outcome = sos_sync::MergeOutcome::default();
                 res!(account.force_merge_folder(&fid, diff, &mut outcome).await)
             }
+            "W" => {
+                // change the account password; then a fresh account over the same storage must refuse the old
+                // password and accept the new one
+                self.counter += 1;
+                let old = self.passwords.get(&d).cloned().unwrap_or_else(password);
+                let new: secrecy::SecretString = secrecy::SecretString::new(format!("harness-changed-passphrase-{}-abcdefgh", self.counter).into());
+                let mut account = acct.lock().await;
+                let r = account.change_account_password(new.clone()).await;
+                let out = res!(r);
+                if out == "ok" {
+                    self.passwords.insert(d, new.clone());
+                    let target = account.backend_target().await;
+                    let mut report = vec![];
+                    for (name, pw) in [("old", old), ("new", new)] {
+                        let verdict = match sos_account::LocalAccount::new_unauthenticated(self.account_id, target.clone()).await {
+                            Ok(mut fresh) => {
+                                let key: AccessKey = pw.into();
+                                match fresh.sign_in(&key).await {
+                                    Ok(_) => {
+                                        let _ = fresh.sign_out().await;
+                                        "ok"
+                                    }
+                                    Err(_) => "err",
+                                }
+                            }
+                            Err(_) => "noopen",
+                        };
+                        report.push(format!("{name}_signin={verdict}"));
+                    }
+                    self.keycheck = Some(format!("acctpw {}", report.join(" ")));
+                }
+                out
+            }
+            "Z" => {
+                // change the cipher of the whole account (alternating between the two symmetric ciphers)
+                let pw = self.passwords.get(&d).cloned().unwrap_or_else(password);
+                let key: AccessKey = pw.into();
+                self.cipher_flip = !self.cipher_flip;
+                let cipher = if self.cipher_flip { sos_core::crypto::Cipher::XChaCha20Poly1305 } else { sos_core::crypto::Cipher::AesGcm256 };
+                let mut account = acct.lock().await;
+                res!(account.change_cipher(&key, &cipher, None).await.map(|_| ()))
+            }
             "o" => {
                 // a real reload: a fresh LocalAccount built from storage (sign_out + sign_in on the
                 // same value keeps the folders it already holds)
                 let mut account = acct.lock().await;
                 let _ = account.sign_out().await;
                 let target = account.backend_target().await;
-                let key: AccessKey = password().into();
+                let key: AccessKey = self.passwords.get(&d).cloned().unwrap_or_else(password).into();
                 match sos_account::LocalAccount::new_unauthenticated(self.account_id, target).await {
                     Ok(mut fresh) => {
                         let r = fresh.sign_in(&key).await;
